@@ -4,7 +4,8 @@
 (* parsers.  A request is a record                                                            *)
 (*   [method, inm_p, inm, im_p, im, ims_p, ims, ifr_p, ifr, range_p, range]                   *)
 (* (x_p: header present, x: its text), a representation                                       *)
-(*   [etag_p, etag_opaque, etag_weak, lm_p, lm = <<Y, M, D, h, m, s, microsecond>>, length].  *)
+(*   [etag_p, etag_opaque, etag_weak, lm_p, lm = <<Y, M, D, h, m, s, microsecond>>, length,   *)
+(*    len_known (FALSE: the server cannot know the length, e.g. send_file over a pipe)].      *)
 (* The contract is the operator Verdict(req, rep, obs) near the end: it names the violated    *)
 (* clause of the property or "ok".  Where RFC / documentation leave a choice, every           *)
 (* documented outcome is accepted (see the comments at May304 / RangeClass).                  *)
@@ -225,11 +226,11 @@ Satisfy(sp, n) ==
 
 \* What the Range header demands for a processable GET / HEAD request:
 \*  "none" (no Range) | "any" (200 or 416: length 0 -- documented "range processing is skipped if
-\*  length is 0"; other units -- RFC: ignore, werkzeug: 416) | "r416" | "sat"
+\*  length is 0"; length unknown to the server; other units -- RFC: ignore, werkzeug: 416) | "r416" | "sat"
 RangeClass(req, rep) ==
   IF ~req.range_p THEN [c |-> "none", iv |-> <<0, 0>>, lenient |-> FALSE]
   ELSE LET pr == ParseRange(req.range) IN
-       IF rep.length = 0 \/ pr.class = "other" THEN [c |-> "any", iv |-> <<0, 0>>, lenient |-> FALSE]
+       IF rep.length = 0 \/ ~rep.len_known \/ pr.class = "other" THEN [c |-> "any", iv |-> <<0, 0>>, lenient |-> FALSE]
        ELSE IF pr.class \in {"bad", "multi"} THEN [c |-> "r416", iv |-> <<0, 0>>, lenient |-> FALSE]
        ELSE LET iv == Satisfy(pr.specs[1], rep.length) IN
             IF iv[1] = iv[2] THEN [c |-> "r416", iv |-> iv, lenient |-> FALSE]
